@@ -506,6 +506,39 @@ def analyse_learn_sites():
     return sites
 
 
+def analyse_p2pcd_bookkeeping():
+    """`SignService` (sign_service.py), the shape of the peer-to-peer certificate request bookkeeping the model takes as
+    given: (1) one entry per statement `self.<list>.remove(<x>)`: is it the body of `if <x> in self.<list>:` (then
+    `remove` never raises and is the model's total `List.erase`)?  (2) one entry per assignment to
+    `…["inlineP2pcdRequest"]`: the source text of the assigned value (the model's `inlineField` is the WHOLE list
+    `self.unknown_ats`: no slice, no filter, no bound on the number of entries)."""
+    tree = ast.parse(src("security/sign_service.py"))
+    guards, sources = [], []
+    for cls in tree.body:
+        if not (isinstance(cls, ast.ClassDef) and cls.name == "SignService"):
+            continue
+        for parent in ast.walk(cls):
+            for field in ("body", "orelse", "finalbody"):
+                block = getattr(parent, field, None)
+                if not isinstance(block, list):
+                    continue
+                for st in block:
+                    if isinstance(st, ast.Expr) and isinstance(st.value, ast.Call) and isinstance(st.value.func, ast.Attribute) \
+                            and st.value.func.attr == "remove" and len(st.value.args) == 1:
+                        lst, x = ast.unparse(st.value.func.value), ast.unparse(st.value.args[0])
+                        ok = False
+                        if isinstance(parent, ast.If) and field == "body" and isinstance(parent.test, ast.Compare) \
+                                and len(parent.test.ops) == 1 and isinstance(parent.test.ops[0], ast.In):
+                            ok = (ast.unparse(parent.test.left) == x and ast.unparse(parent.test.comparators[0]) == lst)
+                        guards.append(ok)
+                    if isinstance(st, ast.Assign):
+                        for t in st.targets:
+                            if isinstance(t, ast.Subscript) and isinstance(t.slice, ast.Constant) \
+                                    and t.slice.value == "inlineP2pcdRequest":
+                                sources.append(ast.unparse(st.value))
+    return guards, sources
+
+
 @register(props=["C05"])
 def gen_router_rx_for_c05():
     """`Props.C05.source_operations_assemble_their_own_pdu` is discharged over `Generated/RouterRx.lean` (who calls
@@ -536,5 +569,10 @@ def gen_sec_rx():
     body += ("/-- one entry per `return <certificate object built from the message>` of\n"
              "    CertificateLibrary.verify_sequence_of_certificates: immediately preceded by `self.add_authorization_ticket(<it>)`? -/\n")
     body += "def learnSites : List Bool := [" + ", ".join("true" if g else "false" for g in analyse_learn_sites()) + "]\n"
+    guards, sources = analyse_p2pcd_bookkeeping()
+    body += ("/-- one entry per `self.<list>.remove(<x>)` of SignService: is it the body of `if <x> in self.<list>:`? -/\n")
+    body += "def removeGuards : List Bool := [" + ", ".join("true" if g else "false" for g in guards) + "]\n"
+    body += "/-- source text of every value assigned to `…[\"inlineP2pcdRequest\"]` in SignService -/\n"
+    body += "def inlineRequestSource : List String := [" + ", ".join(_lean_str(x) for x in sources) + "]\n"
     body += "end Generated.SecRx\n"
     write_if_changed("SecRx.lean", body)
